@@ -209,6 +209,38 @@ pub fn canon_dump(d: &RawDump) -> Vec<String> {
 
 pub fn canon(eg: &EGraph) -> Vec<String> { canon_dump(&raw_dump(eg)) }
 
+/// C04: "the serialised e-graph and the read API describe the same rows".  Every row of a user constructor /
+/// function table read through the API must appear as a node of `EGraph::serialize` with the same operator, the
+/// same e-class and children whose e-classes are the classes of the row's arguments (base-value children are
+/// compared by count only), and the node counts per operator must equal the row counts.
+pub fn serialize_defects(eg: &EGraph, d: &RawDump) -> Option<String> {
+    use egglog_numeric_id::NumericId;
+    let out = match std::panic::catch_unwind(std::panic::AssertUnwindSafe(|| eg.serialize(egglog::SerializeConfig::default()))) { Ok(o) => o, Err(_) => return Some("EGraph::serialize panicked".into()) };
+    if !out.is_complete() { return Some(format!("serialize omitted functions with the default config: {}", out.omitted_description())); }
+    let g = &out.egraph;
+    let class_of: HashMap<String, String> = g.nodes.iter().map(|(id, n)| (id.to_string(), n.eclass.to_string())).collect();
+    let funcs: HashMap<String, egglog::Function> = eg.functions_iter().map(|(n, f)| (n.clone(), f.clone())).collect();
+    for t in &d.tables {
+        if t.name.starts_with('$') { continue; }
+        let Some(f) = funcs.get(&t.name) else { continue };
+        let ft = f.func_type().clone();
+        let nodes: Vec<_> = g.nodes.values().filter(|n| n.op == t.name).collect();
+        if nodes.len() != t.rows.len() { return Some(format!("serialize has {} nodes for `{}`, the read API {} rows", nodes.len(), t.name, t.rows.len())); }
+        if !t.is_ctor || t.out_sort.starts_with('@') { continue; }
+        let mut want: Vec<(Vec<String>, String, bool)> = t.rows.iter().map(|r| {
+            let kids = r.args.iter().zip(ft.input.iter()).map(|(a, s)| match a { V::Id(i) => eg.value_to_class_id(s, Value::new(*i)).to_string(), _ => "<base>".to_string() }).collect();
+            let cls = match r.out { V::Id(i) => eg.value_to_class_id(&ft.output, Value::new(i)).to_string(), _ => "<base>".into() };
+            (kids, cls, r.sub) }).collect();
+        let mut got: Vec<(Vec<String>, String, bool)> = nodes.iter().map(|n| {
+            let kids = n.children.iter().zip(ft.input.iter()).map(|(c, s)| if s.is_eq_sort() { class_of.get(&c.to_string()).cloned().unwrap_or_else(|| format!("?{c}")) } else { "<base>".to_string() }).collect();
+            (kids, n.eclass.to_string(), n.subsumed) }).collect();
+        want.sort(); got.sort();
+        if want != got { let k = want.iter().zip(&got).position(|(a, b)| a != b).unwrap_or(0);
+            return Some(format!("`{}`: the read API row {:?} has no matching serialized node (nearest: {:?})", t.name, want.get(k), got.get(k))); }
+    }
+    None
+}
+
 /// The C04 canonicity predicate evaluated on the implementation's raw dump:
 /// one row per key, no two constructor rows for the same class-key collision, every stored id is
 /// its own representative according to the engine (probed through a `check`-free API: an id is
